@@ -127,6 +127,79 @@ def clause_kind_predicates(facts, rep):
                 'C03.kinds: only %s of the %d predicates found' % (sorted(seen), len(SPEC)))
 
 
+def clause_dom_build(facts, rep, tier):
+    """the events of a text become the tree the text denotes: the SAX handler's event methods are interpreted from their
+    CFGs on the node / block model (sv/dom_model.py, sv/schema_model.py) for the canonical event sequence (the one
+    E6.events proves the parser emits) of every tree of a universe - all leaf kinds, arrays / objects of <= 3 members,
+    nesting to depth 3.  Afterwards the node stack holds exactly one node, and reading it back - through the children
+    blocks the End* events built - gives the tree of the text; no slot outside a block is touched."""
+    from .. import schema_model as sm
+    from ..schema_model import T, Schema, teq, tstr
+    from ..dom_model import Machine
+    from ..minterp import Unsupported, UndefinedBehaviour
+    import itertools
+    tags = {}
+    for en in facts.enums:
+        if en.get('qn', '').endswith('TypeFlag'):
+            for c in en.get('values', []):
+                tags[c['name']] = int(c['v'])
+    nfns, hfns = {}, {}
+    for f in facts.functions:
+        if f.name.startswith('sonic_json::DNode<sonic_json::SimpleAllocator>') or f.name.startswith('sonic_json::DNode<SAlloc>'):
+            if f.short == 'findMemberImpl' and f.params and 'StringView' not in f.params[0]['t'] and 'basic_string_view' not in f.params[0]['t']:
+                continue
+            nfns.setdefault(f.short, f)
+        if f.cls_qn == 'sonic_json::SAXHandler' and ('SAlloc' in f.name or 'SimpleAllocator' in f.name):
+            hfns.setdefault(f.short, f)
+    need = ('StartObject', 'EndObject', 'StartArray', 'EndArray', 'Key', 'String', 'Null', 'Bool', 'Uint', 'Int', 'Double', 'node', 'stringImpl')
+    rep.require(all(n in hfns for n in need) and 'destroy' in nfns and 'kObject' in tags, 'C03: SAXHandler / DNode functions of the freeing-allocator instantiation not all found')
+    for n_ in need:
+        rep.fn(hfns[n_])
+    S = Schema(facts, hfns, nfns, tags)
+    U = lambda v: T('uint', v)
+    St = lambda v: T('str', v)
+    leaves = [U(1), St('s'), St(''), T('null'), T('true'), T('false'), T('sint', -2), T('real', 1.5), U((1 << 64) - 1), T('sint', -(1 << 63))]
+    small = leaves[:2] + [T('null')]
+
+    def conts(vals, maxk):
+        out = []
+        for k in range(0, maxk + 1):
+            for combo in itertools.product(vals, repeat=k):
+                out.append(T('arr', None, list(combo)))
+                out.append(T('obj', None, [('k%d' % j, c) for j, c in enumerate(combo)]))
+        return out
+    l1 = conts(small, 3)
+    reps = [T('arr'), T('obj'), T('arr', None, [U(1)]), T('obj', None, [('a', U(1)), ('b', St('s'))]), U(7)]
+    l2 = conts(reps, 3 if tier == 'thorough' else 2)
+    l3 = conts([l2[5], l2[-1], T('arr', None, [T('arr', None, [T('arr')])]), U(1)], 2)
+    univ = leaves + conts(leaves, 1) + l1 + l2 + l3
+    bad = None
+    n = 0
+    try:
+        for t in univ:
+            M = Machine(facts, nfns, tags)
+            try:
+                ok, stack, np_ = S.build_fresh(M, t)
+                n += 1
+                if not ok:
+                    bad = 'text %s: an event was refused although the stack has room' % tstr(t)
+                elif np_ != 1:
+                    bad = 'text %s: %d nodes left on the node stack, the root alone is expected' % (tstr(t), np_)
+                else:
+                    got = S.read(stack.slots[0])
+                    if not teq(got, t):
+                        bad = 'text %s is built as %s' % (tstr(t), tstr(got))
+            except UndefinedBehaviour as ux:
+                bad = 'text %s: undefined behaviour: %s' % (tstr(t), ux)
+            if bad:
+                break
+    except Unsupported as ex:
+        raise AnalysisBroken('C03: the SAX handler cannot be interpreted on the DOM model: %s' % ex)
+    rep.extra['dom_build_trees'] = n
+    rep.check(bad is None, 'E6.dom-build', 'sonic_json::SAXHandler', 'the node built from the events of a text equals the tree of the text, for %d trees' % n,
+              hfns['EndObject'].loc, bad or '', facts.config)
+
+
 def run(rep, tier):
     configs = ['K1'] if tier == 'quick' else ['K1', 'K3', 'K7']
     for cfg in configs:
@@ -158,6 +231,10 @@ def run(rep, tier):
         ws_table.check(f3, rep)
         c15.clause_f(f3, rep)
         c15.clause_g(f3, rep)
+    try:
+        clause_dom_build(get_facts('K1'), rep, tier)
+    except AnalysisBroken as ex:
+        rep.broken.append(str(ex))
     rep.extra['traces_validated_against_impl'] = 0
     rep.trust('clang 14 front end', 'hand-written RFC 8259 reference transducer (sv/e6_vpa.py ref_step)',
               'contract of scalar sub-parsers (one well-formed lexeme of their kind -> their event)')
